@@ -252,13 +252,36 @@ the line feed. In pkg/obiformats.ReadSeqFileChunk, what trims the tail of the bu
 condition comparing a byte of the buffer with '\n' compares it with '\r' in the same expression. Trimmed of LF only, a chunk of a CR LF GenBank file ends with a lone CR, which the flat-file
 parser takes for a line of its own.`,
 		Run: func(c *Ctx, s *Sink) {
-			fd, p := c.FindFunc("pkg/obiformats", "ReadSeqFileChunk")
-			if fd == nil {
+			fd0, p := c.FindFunc("pkg/obiformats", "ReadSeqFileChunk")
+			if fd0 == nil {
 				s.Undecided(nil, "pkg/obiformats.ReadSeqFileChunk:line-ends", 0, "function not found")
 				return
 			}
 			info := p.TypesInfo
 			n := 0
+			// the chunk reader and the helpers of its file
+			file := c.Fset.Position(fd0.Pos()).Filename
+			for _, f := range p.Syntax {
+				if c.Fset.Position(f.Pos()).Filename != file {
+					continue
+				}
+				for _, d := range f.Decls {
+					fd, isF := d.(*ast.FuncDecl)
+					if !isF || fd.Body == nil {
+						continue
+					}
+					crtFunc(c, s, info, fd, &n)
+				}
+			}
+		},
+	})
+}
+
+func crtFunc(c *Ctx, s *Sink, info *types.Info, fd *ast.FuncDecl, np *int) {
+	{
+		{
+			n := *np
+			defer func() { *np = n }()
 			isChar := func(e ast.Expr, ch int64) bool {
 				v, ok := constInt(info, e)
 				return ok && v == ch
@@ -317,6 +340,6 @@ parser takes for a line of its own.`,
 					s.Fail(nil, key, cond.Pos(), "the tail of the chunk is trimmed of line feeds only: a chunk of a CR LF file ends with a lone carriage return")
 				}
 			}
-		},
-	})
+		}
+	}
 }
